@@ -199,8 +199,13 @@ def run(ctx) -> None:
     # ---- R4 ---------------------------------------------------------------------
     gstate = db.cls("runners._shared.types.GraphState")
     uv = gstate.methods["update_value"]
-    ucfg = ctx.cfg(uv)
-    incs = [n for n in ucfg.nodes if n.kind == "stmt" and isinstance(n.ast, (ast.Assign, ast.AugAssign)) and "versions" in src(n.ast.targets[0] if isinstance(n.ast, ast.Assign) else n.ast.target)]
+    from .common import state_update_sites
+
+    ucfg, incs, all_stores = state_update_sites(ctx, uv)
+    # whatever is (re-)produced under a name becomes the name's value: every path through the update stores the value,
+    # whether or not it counts as a change for the version
+    ok_store = bool(all_stores) and all_paths_pass(ucfg.entry, ucfg.exit_return, all_stores)
+    rep.add("C01.R4", f"{uv.qname}:always-stores", ok_store, uv.loc(), "every path through the update stores the value" if ok_store else "the value is stored only when it counts as a change: a re-production that compares equal to the stored value (True after 1, Decimal('1.00') after Decimal('1.0'), a record whose payload field is excluded from comparison) is dropped — the state and the result keep the older object, e.g. the transient output computed from a signature default instead of the dependency-order value, or a run-time value instead of the upstream output that has precedence")
     names_new = [nm for nm, ds in db.local_defs(uv).items() if any(isinstance(d, ast.Assign) and " not in " in src(d.value) and "values" in src(d.value) for d in ds)]
     val = {nm: True for nm in names_new}
     val["name not in self.values"] = True
@@ -209,7 +214,7 @@ def run(ctx) -> None:
     ok = has_new_test and bool(incs) and all_paths_pass(ucfg.entry, ucfg.exit_return, incs, specialize(val, ucfg))
     if ok and names_new:
         dom = dominators(ucfg.entry)
-        stores = [n for n in ucfg.nodes if n.kind == "stmt" and isinstance(n.ast, ast.Assign) and any(isinstance(t_, ast.Subscript) and src(t_.value).endswith(".values") for t_ in n.ast.targets)]
+        stores = all_stores
         newdefs = [n for n in ucfg.nodes if n.kind == "stmt" and isinstance(n.ast, ast.Assign) and isinstance(n.ast.targets[0], ast.Name) and n.ast.targets[0].id in names_new]
         ok = bool(stores) and all(any(d in dom.get(s, set()) for d in newdefs) for s in stores)
     rep.add("C01.R4", f"{uv.qname}:first-production-advances", ok, uv.loc(), "the first production of a name always advances its version" if ok else "the first production of a name can leave its version at 0 (e.g. an upstream None): a consumer that already ran on its signature default is never re-run with the upstream value")
@@ -408,6 +413,8 @@ def _k(lst, x) -> int:
 HP = "src/hypergraph/runners/_shared/helpers.py"
 TY = "src/hypergraph/runners/_shared/types.py"
 VARIANTS = [
+    Variant("value-stored-only-on-change", TY, lambda s_: s_.replace("        self.values[name] = value\n\n        # Only increment version", "        # Only increment version", 1).replace("        if is_new or value is _EMIT_SENTINEL:\n            self.versions[name] = self.versions.get(name, 0) + 1\n", "        if is_new or value is _EMIT_SENTINEL:\n            self.values[name] = value\n            self.versions[name] = self.versions.get(name, 0) + 1\n", 1).replace("            if changed:\n                self.versions[name] = self.versions.get(name, 0) + 1\n", "            if changed:\n                self.values[name] = value\n                self.versions[name] = self.versions.get(name, 0) + 1\n", 1), {"C01.R4"}),
+    Variant("twin-version-bump-through-helper", TY, lambda s_: s_.replace("        if is_new or value is _EMIT_SENTINEL:\n            self.versions[name] = self.versions.get(name, 0) + 1\n", "        if is_new or value is _EMIT_SENTINEL:\n            self._advance(name)\n", 1).replace("            if changed:\n                self.versions[name] = self.versions.get(name, 0) + 1\n", "            if changed:\n                self._advance(name)\n\n    def _advance(self, name: str) -> None:\n        self.versions[name] = self.versions.get(name, 0) + 1\n", 1), set()),
     Variant("async-executor-awaits-any-awaitable", "src/hypergraph/runners/async_/executors/function_node.py", replace_once("        if inspect.iscoroutine(result):", "        if inspect.isawaitable(result):"), {"C01.R8"}),
     Variant("async-versions-from-new-state", "src/hypergraph/runners/async_/superstep.py", replace_once("input_versions = {param: state.get_version(param) for param in node.inputs}", "input_versions = {param: new_state.get_version(param) for param in node.inputs}"), {"C01.R6"}),
     Variant("bound-before-state", HP, chain(replace_once("    if param in graph._bound:\n        return (ValueSource.BOUND, graph._bound[param])\n", ""), replace_once("    if param in state.values:\n        return (ValueSource.EDGE, state.values[param])\n", "    if param in graph._bound:\n        return (ValueSource.BOUND, graph._bound[param])\n    if param in state.values:\n        return (ValueSource.EDGE, state.values[param])\n")), {"C01.R1"}),
